@@ -264,6 +264,7 @@ def body(led):
     # are handed the same laminate matrix, also when force_orthotropic_laminate edits it
     from . import py_panel
     py_panel.check_one_laminate(led)
+    py_panel.check_calc_k0_numeric(led)       # ... and the same constant pre-load term on both routes
 
 
 def main():
